@@ -81,9 +81,15 @@ def check(prog: Program, rep: Report) -> None:
         raise AnalysisError(f"TagActivator: handler pools not identified uniquely: {pools}")
     not_running, running = next(iter(pools))
     # -- trash function: reads running[t], moves it to not_running[t], clears running[t] -----------------------------------
-    trashers = [fn for fn in methods.values() if fn not in creators and any(
-        isinstance(n, ast.Assign) and isinstance(n.targets[0], ast.Subscript) and self_attr(n.targets[0].value) == running
-        for n in ast.walk(fn))and fn.name != "initialize"]
+    def writes_running(fn: ast.AST) -> bool:
+        return any(isinstance(n, ast.Assign) and isinstance(n.targets[0], ast.Subscript) and self_attr(n.targets[0].value) == running
+                   for n in ast.walk(fn))
+    trashers = [fn for fn in methods.values() if fn not in creators and fn.name not in absorbed and writes_running(fn) and fn.name != "initialize"]
+    if len(trashers) > 1:
+        # the trash routine is the one that hands the stopped handlers back to the caller; any other writer is reported below
+        returning = [fn for fn in trashers if any(isinstance(r, ast.Return) and r.value is not None for r in ast.walk(fn))]
+        if len(returning) == 1:
+            trashers = returning
     if len(trashers) != 1:
         raise AnalysisError("TagActivator: trash routine not identified")
     tf = trashers[0]
@@ -207,6 +213,29 @@ def check(prog: Program, rep: Report) -> None:
                            f"{fn.name}: {want} loop uses {self_attr(loop2.iter.value)}",
                            f"the loop that {want[:-1]}s taggers iterates the dictionary built from "
                            f"`{built.get(self_attr(loop2.iter.value))}`")
+    # -- inside the creation routines the pools change only by the linear move of the creation loop --------------------------
+    for fn in creators:
+        moves = set()
+        for loop in [n for n in ast.walk(fn) if isinstance(n, ast.For) and isinstance(n.iter, ast.Call) and isinstance(n.iter.func, ast.Attribute)
+                     and n.iter.func.attr == "yield_identifiers_send_event_time"]:
+            for n in ast.walk(loop):
+                if isinstance(n, ast.Call) and isinstance(n.func, ast.Attribute) and n.func.attr in ("pop", "append") \
+                        and isinstance(n.func.value, ast.Subscript) and self_attr(n.func.value.value) in (running, not_running):
+                    moves.add(id(n))
+        for n in ast.walk(fn):
+            other = None
+            if isinstance(n, (ast.Assign, ast.AugAssign)):
+                for t in (n.targets if isinstance(n, ast.Assign) else [n.target]):
+                    if isinstance(t, ast.Subscript) and self_attr(t.value) in (running, not_running):
+                        other = n
+            elif isinstance(n, ast.Call) and isinstance(n.func, ast.Attribute) and n.func.attr in ("pop", "append", "extend", "clear", "remove", "insert") \
+                    and isinstance(n.func.value, ast.Subscript) and self_attr(n.func.value.value) in (running, not_running) and id(n) not in moves:
+                other = n
+            if other is not None:
+                rep.ob("R9.3-pool-writers", False, Loc(FILE, other.lineno, f"TagActivator.{fn.name}"), other,
+                       "while event handlers are handed out (activation, deactivation, creation) the pools may change only by moving one "
+                       "handler from not-running to running per created event: a handler moved back here still has its candidate event in "
+                       "the scheduler, and the trash list of a later event no longer finds it")
     # -- who else writes the pools -------------------------------------------------------------------------------------
     allowed = {fn.name for fn in creators} | absorbed | {tf.name, "initialize", "__init__"}
     for mi in prog.modules.values():
